@@ -30,8 +30,14 @@ from aws_durable_execution_sdk_python.operation.callback import (
 )
 from aws_durable_execution_sdk_python.operation.child import child_handler
 from aws_durable_execution_sdk_python.operation.invoke import InvokeOperationExecutor
-from aws_durable_execution_sdk_python.operation.map import map_handler
-from aws_durable_execution_sdk_python.operation.parallel import parallel_handler
+from aws_durable_execution_sdk_python.operation.map import (
+    MapSummaryGenerator,
+    map_handler,
+)
+from aws_durable_execution_sdk_python.operation.parallel import (
+    ParallelSummaryGenerator,
+    parallel_handler,
+)
 from aws_durable_execution_sdk_python.operation.step import StepOperationExecutor
 from aws_durable_execution_sdk_python.operation.wait import WaitOperationExecutor
 from aws_durable_execution_sdk_python.operation.wait_for_condition import (
@@ -438,6 +444,10 @@ class DurableContext(DurableContextProtocol):
                 # the item serdes will be passed when we are actually executing
                 # the branch within its own child_handler.
                 item_serdes=None,
+                # an oversized BatchResult is recorded as its summary
+                summary_generator=(
+                    config.summary_generator if config else MapSummaryGenerator()
+                ),
             ),
         )
         self.state.track_replay(operation_id=operation_id)
@@ -481,6 +491,10 @@ class DurableContext(DurableContextProtocol):
                 # the item serdes will be passed when we are actually executing
                 # the branch within its own child_handler.
                 item_serdes=None,
+                # an oversized BatchResult is recorded as its summary
+                summary_generator=(
+                    config.summary_generator if config else ParallelSummaryGenerator()
+                ),
             ),
         )
         self.state.track_replay(operation_id=operation_id)
